@@ -8,8 +8,8 @@ CONSTANTS
   SpellNames = {"s1", "s2", "s3", "s4", "s5"}
   EmitTrees = FALSE
   Alpha = "T"
-  Contexts = {"qrot"}
-  MaxLen = 4
+  Contexts = {"q0", "q1", "q2"}
+  MaxLen = 3
   TailLen = 0
   DeepReps = {}
 INVARIANT PipesEqualReference
